@@ -33,6 +33,12 @@ EStep ==
        IF Ev.do = "start" /\ ~ Ev.replied THEN "the server did not come back after the restart"
        ELSE IF up /\ Ev.do \notin {"kill", "start"} /\ ~ Ev.alive THEN "the server process died"
        ELSE IF Ev.do = "probe" /\ up /\ ~ Ev.replied THEN "the server does not answer (wedged)"
+       ELSE IF Ev.do = "http" /\ Ev.name = "canary-create" /\ Ev.class # "2xx" THEN "the server does not accept a well-formed request any more"
+       ELSE IF Ev.do = "received" /\ up /\ ~ \E k \in DOMAIN Ev.json : Ev.json[k].task.id = "__invoke:" \o Ev.name \o "-" \o sc.sid
+            THEN "background processing is wedged: a task routed afterwards is never dispatched"
+       ELSE IF Ev.do = "rows" /\ up /\ Ev.json.ok
+               /\ ~ \E k \in DOMAIN Ev.json.promises : Ev.json.promises[k].id = Ev.name \o "-" \o sc.sid /\ Ev.json.promises[k].state = 16
+            THEN "background processing is wedged: a promise created afterwards is never timed out"
        ELSE IF Ev.do \in {"http", "grpc"} /\ Ev.name = "hostile" /\ Ev.class = "none" THEN "no reply to the request"
        ELSE IF Ev.do \in {"http", "grpc"} /\ Ev.class = "5xx" THEN "server error for a client input"
        ELSE IF Ev.do \in {"http", "grpc"} /\ Ev.name = "hostile" /\ sc.expect = "4xx" /\ Ev.class # "4xx" THEN "invalid request not refused"
@@ -53,7 +59,9 @@ Crashes == {"the server process died", "the server panicked", "the server did no
 \* timed out / routed / dispatched / fired, or after a restart
 C13_NeverCrashes == bad \notin Crashes
 \* ... or stalls it
-C13_NeverWedges == bad \notin {"the server does not answer (wedged)", "no reply to the request"}
+C13_NeverWedges == bad \notin {"the server does not answer (wedged)", "no reply to the request", "the server does not accept a well-formed request any more",
+                                "background processing is wedged: a task routed afterwards is never dispatched",
+                                "background processing is wedged: a promise created afterwards is never timed out"}
 \* client inputs are never answered with a server error
 C13_NoServerError == bad # "server error for a client input"
 \* invalid requests are answered with a client-error status ...
